@@ -588,6 +588,9 @@ def compile_assign(
            for t in (target if chained else [target])]
 
         if ann is not None:
+            if not isinstance(st_targets[0], (ast.Name, ast.Attribute, ast.Subscript)):
+                raise compiler._syntax_error(
+                    target, "illegal target for an annotated assignment")
             ann_result = compiler.compile(ann)
             result = ann_result + result
 
